@@ -7,7 +7,7 @@ HERE = os.path.dirname(os.path.abspath(__file__))
 VERIF = os.path.dirname(os.path.dirname(HERE))
 sys.path.insert(0, VERIF)
 sys.path.insert(0, os.environ.get('VERIF_REPO', '/repo'))
-GEN_DIR = os.path.join(VERIF, 'coq', 'Gen')
+GEN_DIR = os.environ.get('VERIF_GEN_DIR') or os.path.join(VERIF, 'coq', 'Gen')
 MODULES = sorted(f[:-3] for f in os.listdir(HERE) if f.startswith('gen_') and f.endswith('.py'))
 
 def write_if_changed(name, text):
